@@ -179,6 +179,11 @@ fn gen_case(src: &mut Src, st: &mut Stats, _env: &Env) -> CaseResult {
         f
     })?;
     record_kinds(&tree, st);
+    // the same tree assembled by hand from the public Ast and wrapped with Expression::new
+    if src.chance(50) {
+        crate::imp::ast_route_agrees("gen", &tree, &text, &doc_text, src)?;
+        st.class("hand-built-ast-route");
+    }
     if c.nontrivial {
         let key = format!("{}\u{0}{}", text, doc_text);
         if st.nontrivial(&key) {
